@@ -446,7 +446,9 @@ fn gen_env(r: &mut Rng, pool: &[Scalar], it: &mut Interner) -> String {
 
 fn gen_case(seed: u64, i: u64) -> Case {
     let mut r = Rng::for_case(seed, i);
-    let g = gen(&mut r);
+    let mut g = gen(&mut r);
+    // minimisation protocol (`--keep p0,p1,..`): dropped instructions become `nop` (indices, edges, pool unchanged)
+    let nelems = nop_dropped(&mut g.f, 0);
     let f = &g.f;
     let mut it = Interner::new();
     let fcoq = coq_function(f, &mut it);
@@ -501,9 +503,9 @@ fn gen_case(seed: u64, i: u64) -> Case {
             tags.push("reports-a-constant".into());
         }
     }
-    let descr = describe(f);
+    let descr = format!("{}{}", keep_prefix("instructions", nelems), describe(f));
     let interesting = g.tags.contains("diamond") || g.tags.contains("loop") || g.tags.contains("load") || g.tags.contains("indirect-branch");
-    Case { coq, nontrivial: f.locations().len() >= 4 && interesting, key: descr.clone(), descr, tags }
+    Case { coq, nontrivial: f.locations().len() >= 4 && interesting, key: descr.clone(), descr, tags }.with_elements(nelems)
 }
 
 fn main() {
